@@ -17,11 +17,31 @@ ASSUMPTIONS = ["the theorems C05.alternate/has_between/atomic_seq/seq_history ar
 def explore(core, rng, tier, seed, search=False):
     n = 500 if tier == "quick" else 20000
     lim = 1500 if tier == "quick" else 200000
-    cmds = [["sched", "set", "exhaustive", 1, lim, 2, "api"], ["sched", "set", "random", rng.randrange(1 << 30), n, 2, "api"],
-            ["setstress", rng.randrange(1 << 30), n]]
-    return traceprop.explore(core, ID, cmds, min_events=4, judge=JUDGE,
-                             race_cmds=[["setstress", rng.randrange(1 << 30), 300 if tier == "quick" else 5000]])
+    # (a) step-level traces under the controlled scheduler: "ObjLin" judges the property (linearizable to the set specification),
+    #     "C04conc" the tie (every Set call is, label for label, the map call(s) set.go makes, in the transition system Model.SyncMapConc)
+    cmds = [["sched", "set", "exhaustive", 1, lim, 2], ["sched", "set", "random", rng.randrange(1 << 30), n, 2]]
+    r = traceprop.explore(core, ID, cmds, min_events=4, judge=JUDGE, also_judges=("C04conc",))
+    # (b) native executions (API-level events), also under the race detector
+    r2 = traceprop.explore(core, ID + "native", [["setstress", rng.randrange(1 << 30), n]], min_events=4, judge=JUDGE, with_corpus=False,
+                           race_cmds=[["setstress", rng.randrange(1 << 30), 300 if tier == "quick" else 5000]])
+    return join(r, r2)
+
+
+def join(r, r2):
+    n = r["n_scripts"]
+    t1, t2 = r["trace_of"], r2["trace_of"]
+    r["trace_of"] = lambda i: t1(i) if i < n else t2(i - n)
+    r["bad"] = r["bad"] + [(b[0] + n,) + tuple(b[1:]) for b in r2["bad"]]
+    for k in ("lines", "ok", "cex", "corr", "int"):
+        r["summary"][k] = str(int(r["summary"].get(k, 0)) + int(r2["summary"].get(k, 0)))
+    r["summary"]["tags"].update(r2["summary"]["tags"])
+    r["n_scripts"] += r2["n_scripts"]
+    r["distinct_nontrivial"] += r2["distinct_nontrivial"]
+    r["stats"] = {"scheduled": r["stats"], "native": r2["stats"]}
+    r["samples"] = r["samples"][:1] + r2["samples"][:1]
+    r["race_runs"] = r2.get("race_runs")
+    return r
 
 
 def replay(core, obj, path):
-    return traceprop.replay(core, obj, path, ID, judge=JUDGE)
+    return traceprop.replay(core, obj, path, ID, judge=JUDGE, also_judges=("C04conc",))
